@@ -100,6 +100,12 @@ func (s *SuffrageStateBuilder) Build(
 				return lastheight, nil, nil, e.Wrap(err)
 			}
 
+			// NOTE the last proof should be same with the proved one of it's
+			// height; the last proof itself is not proved with the previous.
+			if !ps[len(ps)-1].State().Hash().Equal(proof.State().Hash()) {
+				return lastheight, nil, nil, e.Errorf("last suffrage proof does not match with the proved")
+			}
+
 			proofs = ps
 			proofs = append(proofs, proof)
 		}
